@@ -66,8 +66,8 @@ func assemble(n *chaingen.Node, v1 []types.Transaction, v2 []types.V2Transaction
 }
 
 func runCase(cs poolsim.Case, coqWanted bool) (coqOut string, failOut *failure, stOut stats, rOut *poolsim.Runner) {
-	t := cs.Tree()
-	w := poolsim.NewWorld(t)
+	var t *chaingen.Tree
+	var w *poolsim.World
 	var fail *failure
 	defer func() {
 		if p := recover(); p != nil {
@@ -80,11 +80,10 @@ func runCase(cs poolsim.Case, coqWanted bool) (coqOut string, failOut *failure, 
 			if stOut == nil {
 				stOut = stats{}
 			}
-			if rOut == nil {
-				rOut = poolsim.NewRunner(w, func(string, string) {})
-			}
 		}
 	}()
+	t = cs.Tree()
+	w = poolsim.NewWorld(t)
 	report := func(kind, detail string) {
 		if fail == nil {
 			fail = &failure{kind, detail}
@@ -529,7 +528,9 @@ func run(c *hx.Ctx) {
 		for k, v := range st {
 			res.CountN(k, v)
 		}
-		res.CountN("calls", r.Steps())
+		if r != nil {
+			res.CountN("calls", r.Steps())
+		}
 		res.Count("regime:" + chaingen.RegimeNames[cs.Regime])
 		if f != nil && res.Distribution["fail:"+f.kind] >= 3 {
 			res.Count("fail:" + f.kind)
